@@ -144,7 +144,9 @@ func checkpath(file string) string {
 			}
 		}
 	}
-	if filepath.IsAbs(privfile) {
+	// a shorter relative form is only for paths no mapping applies to: built
+	// from the original path it would show the protected directory again
+	if privfile == file && filepath.IsAbs(privfile) {
 		cwd, _ := os.Getwd()
 		relfile, _ := filepath.Rel(cwd, file)
 		if l := len(relfile); l > 0 && l < len(privfile) {
